@@ -307,6 +307,8 @@ def run_ir(tier, ctx):
             for inc in st.get('inconclusive', [])[:2]:
                 agg['errors'].append('inconclusive: %s' % inc['reason'][:200])
             for v in st['violations']:
+                if v['kind'] == 'snapshot':
+                    continue              # functional contract of the generation snapshot: decided by C10 ir_snapshot
                 if not any(x['kind'] == v['kind'] and x['msg'] == v['msg'] for x in found):
                     found.append(v)
         agg['reached'] = agg['distinct'] = agg['paths']
